@@ -195,8 +195,53 @@ func runC05(c *Ctx, r *Run) {
 		names = append(names, k)
 	}
 	sort.Strings(names)
+	// callers of every function (static calls), to recognise a tabled site whose panicking statement moved into an
+	// unexported helper that only tabled sites call
+	callersOf := map[string]map[string]bool{}
+	unexported := map[string]bool{}
+	for _, p := range c.LibPkgs() {
+		for _, top := range funcsOfPkg(c, c.SSA[p.Types]) {
+			root := top
+			for root.Parent() != nil {
+				root = root.Parent()
+			}
+			if o := root.Object(); o != nil && !o.Exported() {
+				unexported[c.FuncName(root)] = true
+			}
+			allInstrs(top, func(in ssa.Instruction) {
+				if cal := staticCallee(in); cal != nil && cal.Pkg != nil && c.InModule(cal.Pkg.Pkg) {
+					cn := c.FuncName(cal)
+					if callersOf[cn] == nil {
+						callersOf[cn] = map[string]bool{}
+					}
+					callersOf[cn][c.FuncName(root)] = true
+				}
+			})
+		}
+	}
+	var tabledVia func(n string, d int) (string, bool)
+	tabledVia = func(n string, d int) (string, bool) {
+		if reason, ok := panicSites[n]; ok {
+			return reason, true
+		}
+		if d > 2 || !unexported[n] || len(callersOf[n]) == 0 {
+			return "", false
+		}
+		via := ""
+		for caller := range callersOf[n] {
+			if caller == n {
+				continue
+			}
+			reason, ok := tabledVia(caller, d+1)
+			if !ok {
+				return "", false
+			}
+			via = "helper of " + caller + ": " + reason
+		}
+		return via, via != ""
+	}
 	for _, n := range names {
-		reason, ok := panicSites[n]
+		reason, ok := tabledVia(n, 0)
 		r.Check("PANIC-3", n+"|explicit-panic", found[n], ok, "explicit panic is tabled: "+reason, "new explicit panic site in "+n+": not in the reviewed table (is it reachable with peer-controlled data? on which goroutine?)")
 	}
 
